@@ -3,6 +3,7 @@ import ZapVerif.Gen.JsonAdd
 import ZapVerif.Model.SubEnc
 import ZapVerif.Proofs.TransJsonSep
 import ZapVerif.Proofs.TransEscape
+import ZapVerif.Proofs.TransJsonEnc
 /-! # C01 — the JSON encoder always emits one well-formed JSON object per entry, on one line
 
 Model: `Model/Esc.lean` (escaping), `Model/Enc.lean` (the streaming encoder over call trees), `Model/Entry.lean`
@@ -467,5 +468,284 @@ theorem safeAppendStringLike_matches_source (fa fd : Val) (buf s : Bytes) (fuel 
     simpa [eAbs, eTail] using hrun
   cases t <;>
     simp [safeAppendStringLike_body, hrun', eAbs, eTail, sliceVal_bytes, hbnd, htake, hfin, G]
+
+end ZapVerif.C01
+
+/-! ## the structural methods of the JSON encoder ARE the source (table `Gen/TransJsonEnc.lean`)
+
+`AppendObject`, `AppendArray`, `AddObject`, `AddArray`, `OpenNamespace`, `encodeReflected` (+ `resetReflectBuf`),
+`AppendReflected`, `AddReflected`, `truncate` of zapcore/json_encoder.go, translated mechanically, are interpreted for
+EVERY buffer, every counter of open namespaces, every marshaler (`Par.mo` / `Par.ma`: whatever it does to the encoder it
+is handed, whatever error it returns) and every reflected encoder.  Each is exactly one clause of the streaming machine
+`Enc.runO` / `Enc.runA` that `stream_eq_out` and `jsonLine_wellformed` are about (`…_is_run_clause`):
+
+* `AppendObject`: separator, `{`, the marshaler on a counter reset to 0, `}`, THEN the namespaces the marshaler left
+  open are closed, the saved counter is restored, the marshaler's error is returned — on the error path too;
+* `AppendReflected` / `AddReflected`: the value is encoded FIRST; when that fails nothing at all is written (no separator,
+  no key) and the scratch buffer is neither freed nor cleared.
+
+`addElementSeparator` / `addKey` / `closeOpenNamespaces` are `Enc.sep` / `Enc.addKey` / the closing braces here, which the
+section above proves about their source. -/
+namespace ZapVerif.C01
+set_option linter.unusedSimpArgs false
+open ZapVerif ZapVerif.Esc ZapVerif.Enc ZapVerif.GoMini ZapVerif.TransJsonEnc ZapVerif.Gen.TransJsonEnc
+
+/-- the encoder state after `AppendObject(obj)` and the error it returns -/
+def appendObjectSpec (P : Par) (obj : Val) (sp : Bool) (s : St) : St × List Val :=
+  let r := P.mo obj sp ⟨sep sp s.buf ++ [123], 0, s.rbuf, s.renc⟩
+  (⟨closeNs (r.1.buf ++ [125]) r.1.ns, s.ns, r.1.rbuf, r.1.renc⟩, r.2)
+
+theorem AppendObject_exec_matches_source (P : Par) (obj : Val) (buf : Bytes) (sp : Bool) (ns : Int) (rbuf renc : List Val)
+    (nr self : Val) (ev : List Val) (fuel : Nat) :
+    (exec (X P) (fuel + 1) AppendObject_body ⟨[("p0", obj)], jeFld buf sp ns rbuf renc nr self ev⟩).fin =
+      some ([.list (appendObjectSpec P obj sp ⟨buf, ns, rbuf, renc⟩).2],
+        jeFld (appendObjectSpec P obj sp ⟨buf, ns, rbuf, renc⟩).1.buf sp ns
+          (appendObjectSpec P obj sp ⟨buf, ns, rbuf, renc⟩).1.rbuf (appendObjectSpec P obj sp ⟨buf, ns, rbuf, renc⟩).1.renc
+          nr self ev) := by
+  rw [exec_succ]
+  simp [AppendObject_body, appendObjectSpec]
+
+theorem AppendObject_matches_source (P : Par) (obj : Val) (buf : Bytes) (sp : Bool) (ns : Int) (rbuf renc : List Val)
+    (nr self : Val) (ev : List Val) (fuel : Nat) :
+    run (X P) (fuel + 1) "AppendObject" [obj] (jeFld buf sp ns rbuf renc nr self ev) =
+      .done [.list (appendObjectSpec P obj sp ⟨buf, ns, rbuf, renc⟩).2]
+        (jeFld (appendObjectSpec P obj sp ⟨buf, ns, rbuf, renc⟩).1.buf sp ns
+          (appendObjectSpec P obj sp ⟨buf, ns, rbuf, renc⟩).1.rbuf (appendObjectSpec P obj sp ⟨buf, ns, rbuf, renc⟩).1.renc
+          nr self ev) :=
+  run_of_fin (X P) _ _ Gen.TransJsonEnc.AppendObject [obj] _ _ _ rfl rfl
+    (AppendObject_exec_matches_source P obj buf sp ns rbuf renc nr self ev fuel)
+
+/-- `AppendObject` is the `AC.obj` clause of `runA` (and, after `addKey`, the `OC.obj` clause of `runO`): when the
+    marshaler behaves on the encoder as the machine does on its call tree `body`, the buffer afterwards is the machine's -/
+theorem AppendObject_is_run_clause (P : Par) (obj : Val) (sp : Bool) (body : List OC) (buf : Bytes) (ns : Int)
+    (rbuf renc : List Val)
+    (hmo : ∀ b : Bytes, (P.mo obj sp ⟨b, 0, rbuf, renc⟩).1.buf = (runO sp ⟨b, 0⟩ body).buf ∧
+      (P.mo obj sp ⟨b, 0, rbuf, renc⟩).1.ns = ((runO sp ⟨b, 0⟩ body).openNs : Int)) (r : List AC) :
+    runA sp buf (AC.obj body :: r) = runA sp (appendObjectSpec P obj sp ⟨buf, ns, rbuf, renc⟩).1.buf r ∧
+    (appendObjectSpec P obj sp ⟨buf, ns, rbuf, renc⟩).1.ns = ns := by
+  obtain ⟨h1, h2⟩ := hmo (sep sp buf ++ [123])
+  simp [runA, appendObjectSpec, closeNs, h1, h2]
+
+def appendArraySpec (P : Par) (arr : Val) (sp : Bool) (s : St) : St × List Val :=
+  let r := P.ma arr sp ⟨sep sp s.buf ++ [91], s.ns, s.rbuf, s.renc⟩
+  (⟨r.1.buf ++ [93], r.1.ns, r.1.rbuf, r.1.renc⟩, r.2)
+
+theorem AppendArray_exec_matches_source (P : Par) (arr : Val) (buf : Bytes) (sp : Bool) (ns : Int) (rbuf renc : List Val)
+    (nr self : Val) (ev : List Val) (fuel : Nat) :
+    (exec (X P) (fuel + 1) AppendArray_body ⟨[("p0", arr)], jeFld buf sp ns rbuf renc nr self ev⟩).fin =
+      some ([.list (appendArraySpec P arr sp ⟨buf, ns, rbuf, renc⟩).2],
+        jeFld (appendArraySpec P arr sp ⟨buf, ns, rbuf, renc⟩).1.buf sp (appendArraySpec P arr sp ⟨buf, ns, rbuf, renc⟩).1.ns
+          (appendArraySpec P arr sp ⟨buf, ns, rbuf, renc⟩).1.rbuf (appendArraySpec P arr sp ⟨buf, ns, rbuf, renc⟩).1.renc
+          nr self ev) := by
+  rw [exec_succ]
+  simp [AppendArray_body, appendArraySpec]
+
+theorem AppendArray_matches_source (P : Par) (arr : Val) (buf : Bytes) (sp : Bool) (ns : Int) (rbuf renc : List Val)
+    (nr self : Val) (ev : List Val) (fuel : Nat) :
+    run (X P) (fuel + 1) "AppendArray" [arr] (jeFld buf sp ns rbuf renc nr self ev) =
+      .done [.list (appendArraySpec P arr sp ⟨buf, ns, rbuf, renc⟩).2]
+        (jeFld (appendArraySpec P arr sp ⟨buf, ns, rbuf, renc⟩).1.buf sp (appendArraySpec P arr sp ⟨buf, ns, rbuf, renc⟩).1.ns
+          (appendArraySpec P arr sp ⟨buf, ns, rbuf, renc⟩).1.rbuf (appendArraySpec P arr sp ⟨buf, ns, rbuf, renc⟩).1.renc
+          nr self ev) :=
+  run_of_fin (X P) _ _ Gen.TransJsonEnc.AppendArray [arr] _ _ _ rfl rfl
+    (AppendArray_exec_matches_source P arr buf sp ns rbuf renc nr self ev fuel)
+
+/-- `AppendArray` is the `AC.arr` clause of `runA` -/
+theorem AppendArray_is_run_clause (P : Par) (arr : Val) (sp : Bool) (body : List AC) (buf : Bytes) (ns : Int)
+    (rbuf renc : List Val)
+    (hma : ∀ b : Bytes, (P.ma arr sp ⟨b, ns, rbuf, renc⟩).1.buf = runA sp b body) (r : List AC) :
+    runA sp buf (AC.arr body :: r) = runA sp (appendArraySpec P arr sp ⟨buf, ns, rbuf, renc⟩).1.buf r := by
+  simp [runA, appendArraySpec, hma]
+
+/-- `AddObject(key, obj)` = `addKey` then `AppendObject`: the `OC.obj` clause of `runO` -/
+theorem AddObject_matches_source (P : Par) (k : Bytes) (obj : Val) (buf : Bytes) (sp : Bool) (ns : Int) (rbuf renc : List Val)
+    (nr self : Val) (ev : List Val) (fuel : Nat) :
+    run (X P) (fuel + 2) "AddObject" [.bytes k, obj] (jeFld buf sp ns rbuf renc nr self ev) =
+      .done [.list (appendObjectSpec P obj sp ⟨Enc.addKey sp buf k, ns, rbuf, renc⟩).2]
+        (jeFld (appendObjectSpec P obj sp ⟨Enc.addKey sp buf k, ns, rbuf, renc⟩).1.buf sp ns
+          (appendObjectSpec P obj sp ⟨Enc.addKey sp buf k, ns, rbuf, renc⟩).1.rbuf
+          (appendObjectSpec P obj sp ⟨Enc.addKey sp buf k, ns, rbuf, renc⟩).1.renc nr self ev) := by
+  refine run_of_fin (X P) _ _ Gen.TransJsonEnc.AddObject [.bytes k, obj] _ _ _ rfl rfl ?_
+  show (exec (X P) (fuel + 2) AddObject_body ⟨[("p0", .bytes k), ("p1", obj)], _⟩).fin = _
+  have hcall : ∀ σ : State, retK σ [.loc "l0"] "AppendObject"
+      (exec (X P) (fuel + 1) AppendObject_body ⟨[("p0", obj)], jeFld (Enc.addKey sp buf k) sp ns rbuf renc nr self ev⟩) = _ :=
+    fun σ => retK_of_fin1 σ _ _ _ _ _ (AppendObject_exec_matches_source P obj (Enc.addKey sp buf k) sp ns rbuf renc nr self ev fuel)
+  rw [exec_succ]
+  simp [AddObject_body, hcall]
+
+theorem AddObject_is_run_clause (P : Par) (obj : Val) (sp : Bool) (k : Bytes) (body : List OC) (e : Enc)
+    (rbuf renc : List Val)
+    (hmo : ∀ b : Bytes, (P.mo obj sp ⟨b, 0, rbuf, renc⟩).1.buf = (runO sp ⟨b, 0⟩ body).buf ∧
+      (P.mo obj sp ⟨b, 0, rbuf, renc⟩).1.ns = ((runO sp ⟨b, 0⟩ body).openNs : Int)) (r : List OC) :
+    runO sp e (OC.obj k body :: r) =
+      runO sp ⟨(appendObjectSpec P obj sp ⟨Enc.addKey sp e.buf k, e.openNs, rbuf, renc⟩).1.buf, e.openNs⟩ r := by
+  obtain ⟨h1, h2⟩ := hmo (sep sp (Enc.addKey sp e.buf k) ++ [123])
+  simp [runO, appendObjectSpec, closeNs, h1, h2]
+
+theorem AddArray_matches_source (P : Par) (k : Bytes) (arr : Val) (buf : Bytes) (sp : Bool) (ns : Int) (rbuf renc : List Val)
+    (nr self : Val) (ev : List Val) (fuel : Nat) :
+    run (X P) (fuel + 2) "AddArray" [.bytes k, arr] (jeFld buf sp ns rbuf renc nr self ev) =
+      .done [.list (appendArraySpec P arr sp ⟨Enc.addKey sp buf k, ns, rbuf, renc⟩).2]
+        (jeFld (appendArraySpec P arr sp ⟨Enc.addKey sp buf k, ns, rbuf, renc⟩).1.buf sp
+          (appendArraySpec P arr sp ⟨Enc.addKey sp buf k, ns, rbuf, renc⟩).1.ns
+          (appendArraySpec P arr sp ⟨Enc.addKey sp buf k, ns, rbuf, renc⟩).1.rbuf
+          (appendArraySpec P arr sp ⟨Enc.addKey sp buf k, ns, rbuf, renc⟩).1.renc nr self ev) := by
+  refine run_of_fin (X P) _ _ Gen.TransJsonEnc.AddArray [.bytes k, arr] _ _ _ rfl rfl ?_
+  show (exec (X P) (fuel + 2) AddArray_body ⟨[("p0", .bytes k), ("p1", arr)], _⟩).fin = _
+  have hcall : ∀ σ : State, retK σ [.loc "l0"] "AppendArray"
+      (exec (X P) (fuel + 1) AppendArray_body ⟨[("p0", arr)], jeFld (Enc.addKey sp buf k) sp ns rbuf renc nr self ev⟩) = _ :=
+    fun σ => retK_of_fin1 σ _ _ _ _ _ (AppendArray_exec_matches_source P arr (Enc.addKey sp buf k) sp ns rbuf renc nr self ev fuel)
+  rw [exec_succ]
+  simp [AddArray_body, hcall]
+
+theorem AddArray_is_run_clause (P : Par) (arr : Val) (sp : Bool) (k : Bytes) (body : List AC) (e : Enc)
+    (rbuf renc : List Val)
+    (hma : ∀ b : Bytes, (P.ma arr sp ⟨b, e.openNs, rbuf, renc⟩).1.buf = runA sp b body) (r : List OC) :
+    runO sp e (OC.arr k body :: r) =
+      runO sp { e with buf := (appendArraySpec P arr sp ⟨Enc.addKey sp e.buf k, e.openNs, rbuf, renc⟩).1.buf } r := by
+  simp [runO, appendArraySpec, hma]
+
+/-- `OpenNamespace(key)`: key, `{`, one more open namespace — the `OC.ns` clause of `runO` -/
+theorem OpenNamespace_matches_source (P : Par) (k : Bytes) (buf : Bytes) (sp : Bool) (ns : Nat) (hns : (ns : Int) + 1 < 2^63)
+    (rbuf renc : List Val) (nr self : Val) (ev : List Val) (fuel : Nat) :
+    run (X P) (fuel + 1) "OpenNamespace" [.bytes k] (jeFld buf sp ns rbuf renc nr self ev) =
+      .done [] (jeFld (runO sp ⟨buf, ns⟩ [OC.ns k]).buf sp ((runO sp ⟨buf, ns⟩ [OC.ns k]).openNs : Nat) rbuf renc nr self ev) := by
+  refine run_of_fin (X P) _ _ Gen.TransJsonEnc.OpenNamespace [.bytes k] _ _ _ rfl rfl ?_
+  show (exec (X P) (fuel + 1) OpenNamespace_body ⟨[("p0", .bytes k)], _⟩).fin = _
+  have hw : wrap .int ((ns : Int) + 1) = (ns : Int) + 1 := by rw [wrap_int_id] <;> omega
+  rw [exec_succ]
+  simp [OpenNamespace_body, runO, hw]
+
+/-- `truncate` empties the buffer (and nothing else) -/
+theorem truncate_matches_source (P : Par) (buf : Bytes) (sp : Bool) (ns : Int) (rbuf renc : List Val) (nr self : Val)
+    (ev : List Val) (fuel : Nat) :
+    run (X P) (fuel + 1) "truncate" [] (jeFld buf sp ns rbuf renc nr self ev) =
+      .done [] (jeFld [] sp ns rbuf renc nr self ev) := by
+  refine run_of_fin (X P) _ _ Gen.TransJsonEnc.truncate [] _ _ _ rfl rfl ?_
+  show (exec (X P) (fuel + 1) truncate_body ⟨[], _⟩).fin = _
+  rw [exec_succ]
+  simp [truncate_body]
+
+/-! ### the reflected encoder -/
+
+/-- `resetReflectBuf`: the scratch buffer is created (from the buffer pool, with its encoder) once, emptied otherwise -/
+def resetSpec (P : Par) (nr : Val) (rbuf renc ev : List Val) : List Val × List Val × List Val :=
+  if rbuf.isEmpty then ([.bytes []], P.newRefl nr [.bytes []], ev ++ [.list [TransJsonEnc.nm "bufferpool.GetPtr"]])
+  else ([.bytes []], renc, ev)
+
+theorem resetReflectBuf_exec_matches_source (P : Par) (buf : Bytes) (sp : Bool) (ns : Int) (rbuf renc : List Val)
+    (nr self : Val) (ev : List Val) (fuel : Nat) :
+    (exec (X P) (fuel + 1) resetReflectBuf_body ⟨[], jeFld buf sp ns rbuf renc nr self ev⟩).fin =
+      some ([], jeFld buf sp ns (resetSpec P nr rbuf renc ev).1 (resetSpec P nr rbuf renc ev).2.1 nr self
+        (resetSpec P nr rbuf renc ev).2.2) := by
+  rw [exec_succ]
+  cases rbuf with
+  | nil => simp [resetReflectBuf_body, resetSpec, nm_getPtr]
+  | cons a r =>
+    have hpos : ¬ ((r.length : Int) + 1 = 0) := by omega
+    simp [resetReflectBuf_body, resetSpec, hpos]
+
+theorem resetReflectBuf_matches_source (P : Par) (buf : Bytes) (sp : Bool) (ns : Int) (rbuf renc : List Val)
+    (nr self : Val) (ev : List Val) (fuel : Nat) :
+    run (X P) (fuel + 1) "resetReflectBuf" [] (jeFld buf sp ns rbuf renc nr self ev) =
+      .done [] (jeFld buf sp ns (resetSpec P nr rbuf renc ev).1 (resetSpec P nr rbuf renc ev).2.1 nr self
+        (resetSpec P nr rbuf renc ev).2.2) :=
+  run_of_fin (X P) _ _ Gen.TransJsonEnc.resetReflectBuf [] _ _ _ rfl rfl
+    (resetReflectBuf_exec_matches_source P buf sp ns rbuf renc nr self ev fuel)
+
+/-- `encodeReflected(obj)`: the bytes and the error it returns, and the scratch state it leaves.  `nil` is the literal
+    `null` without touching anything; a failing `Encode` returns the error with NO bytes and leaves the scratch buffer as
+    it is (not freed, not cleared); a successful one has its trailing newline trimmed -/
+def encodeReflectedSpec (P : Par) (nr : Val) (obj rbuf renc ev : List Val) :
+    (Bytes × List Val) × (List Val × List Val × List Val) :=
+  if obj.isEmpty then (([110, 117, 108, 108], []), (rbuf, renc, ev))
+  else
+    let rs := resetSpec P nr rbuf renc ev
+    let r := P.reflEncode rs.2.1 (.list obj)
+    if r.2.isEmpty then ((trimNewline r.1, []), ([.bytes (trimNewline r.1)], rs.2.1, rs.2.2))
+    else (([], r.2), ([.bytes r.1], rs.2.1, rs.2.2))
+
+theorem encodeReflected_exec_matches_source (P : Par) (obj : List Val) (buf : Bytes) (sp : Bool) (ns : Int)
+    (rbuf renc : List Val) (nr self : Val) (ev : List Val) (fuel : Nat) :
+    (exec (X P) (fuel + 2) encodeReflected_body ⟨[("p0", .list obj)], jeFld buf sp ns rbuf renc nr self ev⟩).fin =
+      some ([.bytes (encodeReflectedSpec P nr obj rbuf renc ev).1.1, .list (encodeReflectedSpec P nr obj rbuf renc ev).1.2],
+        jeFld buf sp ns (encodeReflectedSpec P nr obj rbuf renc ev).2.1 (encodeReflectedSpec P nr obj rbuf renc ev).2.2.1
+          nr self (encodeReflectedSpec P nr obj rbuf renc ev).2.2.2) := by
+  have hcall : ∀ σ : State, retK σ [] "resetReflectBuf"
+      (exec (X P) (fuel + 1) resetReflectBuf_body ⟨[], jeFld buf sp ns rbuf renc nr self ev⟩) = _ :=
+    fun σ => retK_of_fin0 σ _ _ _ (resetReflectBuf_exec_matches_source P buf sp ns rbuf renc nr self ev fuel)
+  rw [exec_succ]
+  cases obj with
+  | nil => simp [encodeReflected_body, encodeReflectedSpec]
+  | cons a r =>
+    have hpos : ¬ ((r.length : Int) + 1 = 0) := by omega
+    have hrs : (resetSpec P nr rbuf renc ev).1 = [.bytes []] := by unfold resetSpec; split <;> rfl
+    cases he : (P.reflEncode (resetSpec P nr rbuf renc ev).2.1 (.list (a :: r))).2 with
+    | nil => simp [encodeReflected_body, encodeReflectedSpec, hcall, hpos, hrs, he]
+    | cons e es =>
+      have hpos' : ¬ ((es.length : Int) + 1 = 0) := by omega
+      simp [encodeReflected_body, encodeReflectedSpec, hcall, hpos, hrs, he, hpos']
+
+theorem encodeReflected_matches_source (P : Par) (obj : List Val) (buf : Bytes) (sp : Bool) (ns : Int)
+    (rbuf renc : List Val) (nr self : Val) (ev : List Val) (fuel : Nat) :
+    run (X P) (fuel + 2) "encodeReflected" [.list obj] (jeFld buf sp ns rbuf renc nr self ev) =
+      .done [.bytes (encodeReflectedSpec P nr obj rbuf renc ev).1.1, .list (encodeReflectedSpec P nr obj rbuf renc ev).1.2]
+        (jeFld buf sp ns (encodeReflectedSpec P nr obj rbuf renc ev).2.1 (encodeReflectedSpec P nr obj rbuf renc ev).2.2.1
+          nr self (encodeReflectedSpec P nr obj rbuf renc ev).2.2.2) :=
+  run_of_fin (X P) _ _ Gen.TransJsonEnc.encodeReflected [.list obj] _ _ _ rfl rfl
+    (encodeReflected_exec_matches_source P obj buf sp ns rbuf renc nr self ev fuel)
+
+/-- `AppendReflected(val)`: encode FIRST; on an error the buffer is untouched (no separator), otherwise separator + bytes -/
+theorem AppendReflected_matches_source (P : Par) (obj : List Val) (buf : Bytes) (sp : Bool) (ns : Int)
+    (rbuf renc : List Val) (nr self : Val) (ev : List Val) (fuel : Nat) :
+    run (X P) (fuel + 3) "AppendReflected" [.list obj] (jeFld buf sp ns rbuf renc nr self ev) =
+      .done [.list (encodeReflectedSpec P nr obj rbuf renc ev).1.2]
+        (jeFld (if (encodeReflectedSpec P nr obj rbuf renc ev).1.2.isEmpty
+                then sep sp buf ++ (encodeReflectedSpec P nr obj rbuf renc ev).1.1 else buf) sp ns
+          (encodeReflectedSpec P nr obj rbuf renc ev).2.1 (encodeReflectedSpec P nr obj rbuf renc ev).2.2.1
+          nr self (encodeReflectedSpec P nr obj rbuf renc ev).2.2.2) := by
+  refine run_of_fin (X P) _ _ Gen.TransJsonEnc.AppendReflected [.list obj] _ _ _ rfl rfl ?_
+  show (exec (X P) (fuel + 3) AppendReflected_body ⟨[("p0", .list obj)], _⟩).fin = _
+  have hcall : ∀ σ : State, retK σ [.loc "l0", .loc "l1"] "encodeReflected"
+      (exec (X P) (fuel + 2) encodeReflected_body ⟨[("p0", .list obj)], jeFld buf sp ns rbuf renc nr self ev⟩) = _ :=
+    fun σ => retK_of_fin2 σ _ _ _ _ _ _ _ (encodeReflected_exec_matches_source P obj buf sp ns rbuf renc nr self ev fuel)
+  rw [exec_succ]
+  generalize encodeReflectedSpec P nr obj rbuf renc ev = R at hcall ⊢
+  obtain ⟨⟨bs, err⟩, rb, re, ev'⟩ := R
+  cases err with
+  | nil => simp [AppendReflected_body, hcall]
+  | cons e es =>
+    have hpos' : ¬ ((es.length : Int) + 1 = 0) := by omega
+    simp [AppendReflected_body, hcall, hpos']
+
+/-- `AddReflected(key, obj)`: encode FIRST; on an error NOTHING is written (no key), otherwise key + bytes -/
+theorem AddReflected_matches_source (P : Par) (k : Bytes) (obj : List Val) (buf : Bytes) (sp : Bool) (ns : Int)
+    (rbuf renc : List Val) (nr self : Val) (ev : List Val) (fuel : Nat) :
+    run (X P) (fuel + 3) "AddReflected" [.bytes k, .list obj] (jeFld buf sp ns rbuf renc nr self ev) =
+      .done [.list (encodeReflectedSpec P nr obj rbuf renc ev).1.2]
+        (jeFld (if (encodeReflectedSpec P nr obj rbuf renc ev).1.2.isEmpty
+                then Enc.addKey sp buf k ++ (encodeReflectedSpec P nr obj rbuf renc ev).1.1 else buf) sp ns
+          (encodeReflectedSpec P nr obj rbuf renc ev).2.1 (encodeReflectedSpec P nr obj rbuf renc ev).2.2.1
+          nr self (encodeReflectedSpec P nr obj rbuf renc ev).2.2.2) := by
+  refine run_of_fin (X P) _ _ Gen.TransJsonEnc.AddReflected [.bytes k, .list obj] _ _ _ rfl rfl ?_
+  show (exec (X P) (fuel + 3) AddReflected_body ⟨[("p0", .bytes k), ("p1", .list obj)], _⟩).fin = _
+  have hcall : ∀ σ : State, retK σ [.loc "l0", .loc "l1"] "encodeReflected"
+      (exec (X P) (fuel + 2) encodeReflected_body ⟨[("p0", .list obj)], jeFld buf sp ns rbuf renc nr self ev⟩) = _ :=
+    fun σ => retK_of_fin2 σ _ _ _ _ _ _ _ (encodeReflected_exec_matches_source P obj buf sp ns rbuf renc nr self ev fuel)
+  rw [exec_succ]
+  generalize encodeReflectedSpec P nr obj rbuf renc ev = R at hcall ⊢
+  obtain ⟨⟨bs, err⟩, rb, re, ev'⟩ := R
+  cases err with
+  | nil => simp [AddReflected_body, hcall]
+  | cons e es =>
+    have hpos' : ¬ ((es.length : Int) + 1 = 0) := by omega
+    simp [AddReflected_body, hcall, hpos']
+
+/-- a reflected value that encoded to `render j` is the `OC.prim` / `AC.prim` clause of the machine; one that failed
+    leaves the buffer exactly as it was (`Field.refl k none` contributes only its `<key>Error` member) -/
+theorem Reflected_is_run_clause (sp : Bool) (k : Bytes) (j : Json.J) (e : Enc) (buf : Bytes) :
+    (runO sp e [OC.prim k j]).buf = Enc.addKey sp e.buf k ++ Json.render j ∧
+    runA sp buf [AC.prim j] = sep sp buf ++ Json.render j := by
+  simp [runO, runA, TransJsonEnc.sep_addKey]
 
 end ZapVerif.C01
